@@ -1,0 +1,20 @@
+//go:build verif
+
+package exif2
+
+import "github.com/evanoberholster/imagemeta/exif2/ifds"
+
+// VerifPoisonPool fills the scratch bytes and the pending-tag array of a pooled buffer with the
+// given pattern and returns it to the pool, so that a read of stale pooled state becomes
+// observable independently of what earlier calls happened to leave behind.
+func VerifPoisonPool(valueOffset uint32, fill byte) {
+	b := bufferPool.Get().(*buffer)
+	for i := range b.buf {
+		b.buf[i] = fill
+	}
+	for i := range b.tag {
+		b.tag[i] = Tag{ValueOffset: valueOffset, UnitCount: 8, ID: 0x010f, Type: 2, Ifd: ifds.IFD0}
+	}
+	b.len, b.pos = uint32(fill)%tagMaxCount, uint32(fill)%7
+	bufferPool.Put(b)
+}
